@@ -257,6 +257,14 @@ pub fn run(ctx: &mut Ctx) {
         let mut r = Rng::for_case(ctx.seed, "C02-OS", i);
         let nums: &[u64] = if r.chance(3, 4) { &[0, 1, 2, 3] } else { crate::gen::NUMS_POOL };
         let mut mk = |r: &mut Rng| -> String {
+            if r.chance(1, 5) {
+                // a full version in one of the spellings the *version* grammar knows (`V1.2.3`,
+                // `v 1.2.3`, padded, hyphen-less tag …): alone and composed it must mean the same
+                let v = crate::gen::rand_version(r, true);
+                let mut t = vec![];
+                crate::vstrings::spellings(&v.no_build(), &mut |x| t.push(x.to_string()));
+                return r.pick(&t).trim().to_string();
+            }
             if r.chance(1, 2) {
                 let (lo, hi) = (rand_partial(r, nums), rand_partial(r, nums));
                 format!("{} - {}", lo.render(&Spelling::plain(), false), hi.render(&Spelling::plain(), false))
